@@ -241,10 +241,10 @@ class FileWalk:
             if e.attr == "random" and self.is_cs_root(e.value, fn):
                 return "cs"
             k = self.kind(e.value, fn, depth + 1)
-            return "val" if k in ("gen", "val") else None
+            return "val" if k in ("gen", "val") else k if k in ("global", "env") else None
         if isinstance(e, ast.Subscript):
             k = self.kind(e.value, fn, depth + 1)
-            return "val" if k in ("gen", "val") else None
+            return "val" if k in ("gen", "val") else k if k in ("global", "env") else None
         if isinstance(e, ast.Call):
             d = dotted(e.func)
             f = self.fq(d)
@@ -259,6 +259,8 @@ class FileWalk:
                 k = self.kind(e.func.value, fn, depth + 1)
                 if k in ("gen", "val"):
                     return "val"
+                if k in ("global", "env"):
+                    return k
                 # self.<helper>() : a method of the same class all of whose return values are gen / val (e.g. a helper that draws a child seed)
                 if isinstance(e.func.value, ast.Name) and e.func.value.id == "self" and fn is not None:
                     cls = fn
@@ -271,9 +273,9 @@ class FileWalk:
                                 ks = {self.kind(r, mth, depth + 1) for r in rets}
                                 if rets and ks <= {"gen", "val"}:
                                     return "val"
-            if d in ("int", "float", "abs", "min", "max") and e.args:
+            if d in ("int", "float", "abs", "min", "max", "str", "round") and e.args:
                 ks = {self.kind(a, fn, depth + 1) for a in e.args}
-                return "val" if ks <= {"val", "gen"} else None
+                return "val" if ks <= {"val", "gen"} else "env" if "env" in ks else "global" if "global" in ks else None
             return None
         if isinstance(e, ast.BinOp):
             ks = {self.kind(e.left, fn, depth + 1), self.kind(e.right, fn, depth + 1)}
